@@ -195,13 +195,19 @@ func Concretize(t ATx, variant int) []byte {
 	panic("unknown tx class " + t.C)
 }
 
-// ExpectStatus is the receipt status the specification prescribes (nil: not determined by the model).
-func ExpectStatus(c string) *bool {
+// ExpectStatus is the receipt status the specification prescribes (nil: not determined by the model);
+// targetLive tells whether the counter contract exists when the transaction runs.
+func ExpectStatus(c string, targetLive bool) *bool {
 	t, f := true, false
 	switch c {
 	case "xfer", "create", "call", "admok":
 		return &t
-	case "revert", "oog", "loop", "admshort":
+	case "revert", "oog", "loop":
+		if targetLive {
+			return &f
+		}
+		return &t
+	case "admshort":
 		return &f
 	}
 	return nil
